@@ -105,6 +105,7 @@ class Arr:
     ds: int = 0  # degree of sample_weight
     clip: str = ""  # "", "hyper" (clipped by a data-independent threshold), "data"
     taint: bool = False  # scaled by something data-dependent the domain cannot express
+    like: str = ""  # non-empty: allocated with the dtype of a data array (ones_like(y), ...)
 
     def fmt(self):
         s = f"(over: {p_fmt(self.over)}, under: {p_fmt(self.under)}) * |residual|^{self.de} * sample_weight^{self.ds}"
@@ -393,12 +394,14 @@ class Interp:
         elif isinstance(t, ast.Subscript) and isinstance(t.value, ast.Name):
             base = env.get(t.value.id)
             m = self.eval(t.slice, env, fi)
+            if isinstance(base, Arr) and base.like and isinstance(m, Mask):
+                self.problems.append((fi, s, f"the multiplier is allocated with the dtype of `{base.like}` and then receives q / 1-q: with integer targets both are truncated to 0 and the asymmetric loss degenerates"))
             if isinstance(base, Arr) and isinstance(m, Mask):
                 x = self.as_factor(v)
                 if x is None or not isinstance(x, Scal):
                     env[t.value.id] = Opaque(True, "masked store")
                 else:
-                    env[t.value.id] = Arr(x.p if m.side == "over" else base.over, x.p if m.side == "under" else base.under, base.de, base.ds, base.clip, base.taint)
+                    env[t.value.id] = Arr(x.p if m.side == "over" else base.over, x.p if m.side == "under" else base.under, base.de, base.ds, base.clip, base.taint, base.like)
             elif isinstance(base, (Arr,)):
                 env[t.value.id] = Opaque(True, "partial store")
 
@@ -411,6 +414,8 @@ class Interp:
         elif isinstance(t, ast.Subscript) and isinstance(t.value, ast.Name):
             base = env.get(t.value.id)
             m = self.eval(t.slice, env, fi)
+            if isinstance(base, Arr) and base.like and isinstance(m, Mask):
+                self.problems.append((fi, s, f"the multiplier is allocated with the dtype of `{base.like}` and then scaled by q / 1-q: with integer targets the update is truncated or refused"))
             if isinstance(base, Arr) and isinstance(m, Mask) and isinstance(v, Scal) and isinstance(s.op, (ast.Mult, ast.Div)):
                 f = p_mul if isinstance(s.op, ast.Mult) else p_div
                 try:
@@ -686,8 +691,13 @@ class Interp:
                 return Opaque(True, "abs")
             if short == "sign" and isinstance(a0, Diff):
                 return Sign(a0.over_pos)
-            if short in ("ones", "ones_like"):
+            if short == "ones":
                 return ONE
+            if short in ("ones_like", "full_like", "zeros_like", "empty_like"):
+                dt = kws.get("dtype")
+                floating = dt is not None and src_of(next(k.value for k in e.keywords if k.arg == "dtype")).split(".")[-1] in ("float", "float64", "float32", "double")
+                src0 = src_of(e.args[0]) if e.args else "?"
+                return Arr(P(1), P(1), 0, 0, "", False, "" if floating else src0)
             if short in ("full", "full_like") and len(args) >= 2 and isinstance(args[1], Scal):
                 return Arr(args[1].p, args[1].p)
             if short == "reciprocal" and isinstance(a0, Arr):
@@ -816,7 +826,7 @@ def check_fit_score(ck, repo):
                 if qn in repo.all_functions:
                     ck.touch(repo.all_functions[qn])
             for f_, node, msg in it.problems:
-                ck.violated("C05.c", f_, node, f"[{cfg}] {msg}")
+                ck.violated("C05.a" if "dtype" in msg else "C05.c", f_, node, f"[{cfg}] {msg}")
             fits = [o for o in it.obs if o[0] == "inner_fit"]
             if not fits:
                 ck.unknown("C05.c", fit, "inner LinearRegression.fit(...)", f"[{cfg}] no call of the inner least squares was reached by the abstract interpretation")
@@ -847,9 +857,13 @@ def check_fit_score(ck, repo):
             # score
             it2 = Interp(repo, half, sw)
             r = it2.run_entry(score)
+            for f_, node, msg in it2.problems:
+                ck.violated("C05.a", f_, node, f"[{cfg}] {msg}")
             if half:
                 ok = isinstance(r, MAE) and r.a == Role("target") and r.b == Role("pred") and (r.sw == Arr(P(1), P(1), 0, 1) if sw else isinstance(r.sw, NoneV))
-                ok = ok or (isinstance(r, Sum) and r.div == "n" and r.arr.over == P(1) and r.arr.under == P(1) and r.arr.de == 1 and r.arr.ds == (1 if sw else 0))
+                # without weights the plain mean of |residual| is the MAE; with weights only the
+                # weighted MAE (normalised by the weights) is: sum(w|e|) / n is not
+                ok = ok or (not sw and isinstance(r, Sum) and r.div == "n" and r.arr.over == P(1) and r.arr.under == P(1) and r.arr.de == 1 and r.arr.ds == 0)
                 ck.verdict(ok, "C05.a", score, f"score [{cfg}]", "q = 0.5: the (weighted) mean absolute error of (y, prediction)", f"[{cfg}] score returns {r}, not the mean absolute error of (y, self.predict(X)) with the caller's weights")
             else:
                 if not isinstance(r, Sum):
@@ -969,6 +983,8 @@ WITNESSES = [
     {"name": "score-args-swapped", "file": _F, "rule": "C05.a", "old": "                y, pred, self.quantile, sample_weight\n", "new": "                pred, y, self.quantile, sample_weight\n"},
     {"name": "score-wrong-denominator", "file": _F, "rule": "C05.a", "old": "return epsilon.sum() / X.shape[0]", "new": "return epsilon.sum() / X.shape[1]"},
     {"name": "score-weights-dropped", "file": _F, "rule": "C05.a", "old": "                y, pred, self.quantile, sample_weight\n", "new": "                y, pred, self.quantile\n"},
+    {"name": "mult-dtype-of-targets", "file": _F, "rule": "C05.a", "old": "            mult = numpy.ones(y_true.shape[0])\n            mult[sign > 0] *= quantile\n            mult[sign < 0] *= 1 - quantile\n", "new": "            mult = numpy.ones_like(y_true)\n            mult[sign > 0] = quantile\n            mult[sign < 0] = 1 - quantile\n"},
+    {"name": "score-half-mean-over-n", "file": _F, "rule": "C05.a", "old": "        return mean_absolute_error(y, pred, sample_weight=sample_weight)", "new": "        epsilon, _ = QuantileLinearRegression._epsilon(y, pred, self.quantile, sample_weight)\n        return epsilon.sum() / X.shape[0]"},
     {"name": "score-half-ignores-weights", "file": _F, "rule": "C05.a", "old": "return mean_absolute_error(y, pred, sample_weight=sample_weight)", "new": "return mean_absolute_error(y, pred)"},
     {"name": "inner-fit-intercept", "file": _F, "rule": "C05.b", "old": "            fit_intercept=False,\n            copy_X=self.copy_X,", "new": "            fit_intercept=self.fit_intercept,\n            copy_X=self.copy_X,"},
     {"name": "positive-not-forwarded", "file": _F, "rule": "C05.b", "old": "            positive=self.positive,\n        )\n\n        W =", "new": "            positive=False,\n        )\n\n        W ="},
